@@ -70,7 +70,10 @@ impl Emitter {
             return;
         }
         take_region_allocs();
-        let obs = crate::exec(tag, &inp);
+        // a panic outside the monitored calls (e.g. while the harness builds a message through
+        // the public API) is an observation too, not a crash of the run
+        let obs = std::panic::catch_unwind(std::panic::AssertUnwindSafe(|| crate::exec(tag, &inp)))
+            .unwrap_or_else(|_| vec![PANIC]);
         let allocs = take_region_allocs();
         use std::fmt::Write as _;
         self.line.clear();
